@@ -47,8 +47,8 @@ def run(rep: Report, tier: str) -> None:
     prog, norm = m.prog, m.norm
     fi = bm.fi
     rep.analysed(fi)
-    ra = rep.rule("C08.a", "every debit of a final balance is followed by a conditional raise on the updated slot, before the next debit / back-edge", floor=2)
-    rb = rep.rule("C08.b", "overdraft predicate: not within 1e-10 of zero AND < 0 AND not allow_negative_balances", floor=4)
+    ra = rep.rule("C08.a", "every debit of a final balance is followed by a conditional raise on the updated slot, before the next debit / back-edge", floor=2, follows_calls=True)
+    rb = rep.rule("C08.b", "overdraft predicate: not within 1e-10 of zero AND < 0 AND not allow_negative_balances", floor=4, follows_calls=True)
     rc = rep.rule("C08.c", "the error names the account (exchange and holder of the debited slot)", floor=2)
     mask = Folder(prog, "rp2.balance").fold(ast.parse("CRYPTO_BALANCE_DECIMAL_MASK", mode="eval").body)
     debit_sites = 0
